@@ -20,7 +20,7 @@ f_parent = z3.Function("path_parent", P, P)
 f_join = z3.Function("path_join", P, P, P)
 
 KEYS = {"hash-length": "Int", "default-flags": "List[Str]", "default-flags-tui": "List[Str]", "skip-snapshot-updates-for-now": "Bool",
-        "shortcuts": "Opaque", "storage-dir": "Str", "format-command": "Opt[Str]"}
+        "shortcuts": "Opaque", "storage-dir": "Str", "format-command": "Str"}
 
 
 def _table(I):
@@ -130,6 +130,10 @@ contract(
         # C13: one history uses one storage, whatever directory a session is started from
         "storage-dir-anchored-at-the-pyproject-directory [C13]": "when(table_present, implies(has_tc_storage_dir and len(tc_storage_dir) > 0, config.storage_dir == anchored(tc_storage_dir, path)))",
         "storage-dir-untouched-otherwise [C13]": "when(table_present, implies(not (has_tc_storage_dir and len(tc_storage_dir) > 0), config.storage_dir == old(config.storage_dir))) and when(not table_present, config.storage_dir == old(config.storage_dir))",
+        # C03/C15/C20: the documented default `format-command = ""` means "no format command": an empty shell command exits 0 with
+        # empty output, which would replace the whole test file by nothing
+        "empty-format-command-means-none [C03,C15,C20]": "when(config.format_command is not None, len(config.format_command) > 0)",
+        "format-command-from-the-table [C20]": "when(table_present, implies(has_tc_format_command and len(tc_format_command) > 0, config.format_command == tc_format_command))",
         "reads-an-existing-file-once": "n_loads == (1 if file_exists else 0)",
     },
     raises={},
